@@ -7,5 +7,5 @@ PATCH="$1"; shift; [ "$1" = "--" ] && shift
 D=$(mktemp -d /tmp/exo-mut-XXXXXX)
 trap 'rm -rf "$D"' EXIT
 mkdir -p "$D/src" && rsync -a --exclude __pycache__ /repo/src/ "$D/src/"
-(cd "$D" && patch -s -p1 < "$PATCH")
+PATCH=$(readlink -f "$PATCH"); (cd "$D" && patch -s -p1 < "$PATCH")
 PYTHONPATH="$D/src" "$@"
